@@ -91,6 +91,10 @@ func runC15(tier string) int {
 					return dropMarkerLines(comp.Compile(s2, comp.Opts{Optimize: opt, Switches: map[string]string{"PV": pv}, LineMarkers: true, Path: "C:\\maps\\a:b\\scripts.pory"}).Out) != res.Out
 				}})
 		}
+		// ... and written on ONE source line (adjacent labels then share a line and a marker)
+		if olRes := comp.Compile(oneLine(src), comp.Opts{Optimize: opt, Switches: map[string]string{"PV": pv}, LineMarkers: true, Path: "src/one.pory"}); olRes.Err != nil || dropMarkerLines(olRes.Out) != res.Out {
+			r.Report(harness.Violation{Sig: "C15:one-line-with-line-markers", Summary: fmt.Sprintf("written on one line and compiled with line markers the non-marker lines differ (%v): %s\n  modifiers script/text/movement/mart/mapscripts=%q label=%q optimize=%v", olRes.Err, firstDiff(dropMarkerLines(olRes.Out), res.Out), m, lm, opt), Replay: map[string]interface{}{"source": oneLine(src), "optimize": opt, "output": res.Out, "output_with_markers": olRes.Out}})
+		}
 		want := map[string]bool{ // name -> exported?
 			"S": c15Global(m[0], true), ns[0]: c15Global(m[1], true), ns[1]: c15Global(m[2], false), ns[2]: c15Global(m[3], false), "Map": c15Global(m[4], true),
 			"TLong": false, "TLong2": true, "tlong": true, "TLONG2": false, "s2": true, "MAP": true, "map": false, "PL": pv == "A", "PM": pv != "A", "L1": c15Global(lm, false), "L2": false, "L3": c15Global(lm, false), "S2": true,
